@@ -10,6 +10,7 @@ import (
 	"os"
 	"path/filepath"
 	"runtime"
+	"runtime/debug"
 	"sort"
 	"strings"
 	"sync"
@@ -267,6 +268,9 @@ func (m *Machine) runPath(fn *ssa.Function, script []int, sv *Solver, pool *Pool
 			case runtime.Error:
 				msg := e.Error()
 				if strings.Contains(msg, "interp.") {
+					if os.Getenv("GOSYM_GOSTACK") != "" {
+						fmt.Fprintf(os.Stderr, "%s\n%s\n", msg, debug.Stack())
+					}
 					res.Outcome, res.Msg = "unsupported", "engine: "+msg
 				} else {
 					res.Outcome, res.Msg = "panic", "runtime error: "+strings.TrimPrefix(msg, "runtime error: ")
